@@ -14,7 +14,7 @@ const rule = "distinct (graph, root, initial destination, mode, store pairing, K
 
 var (
 	quick    = copyh.Budget{Main: 800, Contention: 150, Twin: 50, CbFail: 80, Mount: 150, Remote: 150, RootPresent: 120, Extended: 100, TwinReach: 120, PlatImage: 40, Cancel: 200, Reps: 0, Sched: 60, SchedReps: 4, SchedEnum: 6, SchedEnumCap: 80}
-	thorough = copyh.Budget{Main: 5000, Contention: 800, Twin: 300, CbFail: 400, Mount: 600, Remote: 600, RootPresent: 500, Extended: 400, TwinReach: 600, PlatImage: 200, Cancel: 1000, Reps: 3, Small: true, Sched: 100, SchedReps: 49, SchedEnum: 40, SchedEnumCap: 600}
+	thorough = copyh.Budget{Main: 3200, Contention: 600, Twin: 300, CbFail: 400, Mount: 600, Remote: 600, RootPresent: 500, Extended: 400, TwinReach: 600, PlatImage: 200, Cancel: 700, Reps: 2, Small: true, Sched: 100, SchedReps: 49, SchedEnum: 40, SchedEnumCap: 350}
 )
 
 // main: the plain binary (no controlled schedules; bin/check builds the test binary).
